@@ -101,3 +101,31 @@ package redis
 //@   trusted
 //@   ensures rdsDels == old(rdsDels) + 1
 //@   modifies rdsDels
+
+// C01 call site: every command (except the blocking ones listed in ignoreCmds) and every pipeline goes through exactly one
+// breaker-protected activation with the package's acceptability predicate, whose request runs the next hook exactly once
+// with the same arguments and returns its error unchanged.
+//@ func (h breakerHook) ProcessHook closure 0
+//@   property C01
+//@   flag callbacks_noheap
+//@   requires h.brk != nil && next != nil && ignoreCmds != nil
+//@   ghost at after Name#0: nm = ret
+//@   ensures implies(!inDom(ignoreCmds, nm), bdoCalls == old(bdoCalls) + 1 && result == bdoResult && bdoAcceptable == acceptable)
+//@   ensures implies(inDom(ignoreCmds, nm), bdoCalls == old(bdoCalls) && calls(next) == old(calls(next)) + 1 && result == ret(next))
+//@ func (h breakerHook) ProcessHook closure 1
+//@   property C01
+//@   flag callbacks_noheap
+//@   requires next != nil
+//@   ensures calls(next) == old(calls(next)) + 1 && result == ret(next)
+//@   call next#0: assert arg0 == ctx && arg1 == cmd
+//@ func (h breakerHook) ProcessPipelineHook closure 0
+//@   property C01
+//@   flag callbacks_noheap
+//@   requires h.brk != nil && next != nil
+//@   ensures bdoCalls == old(bdoCalls) + 1 && result == bdoResult && bdoAcceptable == acceptable
+//@ func (h breakerHook) ProcessPipelineHook closure 1
+//@   property C01
+//@   flag callbacks_noheap
+//@   requires next != nil
+//@   ensures calls(next) == old(calls(next)) + 1 && result == ret(next)
+//@   call next#0: assert arg0 == ctx
